@@ -370,3 +370,10 @@ pub fn check_c02(ctx: &Ctx) -> i32 {
         &["states are judged at quiescence only (between operations), under the library's own lock order"],
     )
 }
+
+/// rawdb half of C13: refused requests inside ordinary histories, judged by the same model
+/// comparison + layout walk after the refusal and through the continuation.
+pub fn c13_raw_campaign(ctx: &Ctx, report: &Report, secs: f64) -> RawCampaign {
+    let cfg = GenCfg { allow_refusals: true, ..GenCfg::default() };
+    campaign(ctx, report, &cfg, secs, "C13|raw", 13)
+}
